@@ -732,6 +732,9 @@ func (w *c02World) applyDefect(r *s3c.Req, p c02Pred) error {
 	case "alt_hdr_amz":
 		r.Headers = append(r.Headers, s3c.KV{K: "X-Amz-Meta-C02verif", V: "a"})
 		r.TweakSigned = func(w *s3c.Wire) { w.Set("X-Amz-Meta-C02verif", "b") }
+	case "dup_hdr_amz":
+		r.Headers = append(r.Headers, s3c.KV{K: "X-Amz-Meta-C02verif", V: "a"})
+		r.TweakSigned = func(w *s3c.Wire) { w.Headers = append(w.Headers, s3c.KV{K: "X-Amz-Meta-C02verif", V: "b"}) }
 	case "alt_query":
 		r.TweakSigned = c02AddParam("c02-extra=1")
 	case "alt_payload":
